@@ -149,7 +149,8 @@ func seedFromEnv() int {
 func selectContracts(e *Engine, pred func(c *Contract) bool) []*Contract {
 	var out []*Contract
 	for _, c := range e.cs.Funcs {
-		if c.Trusted || !pred(c) {
+		if c.Trusted || !pred(c) || strings.HasPrefix(c.Key, "field:") {
+			// field contracts are assumptions about stored functions, not units
 			continue
 		}
 		out = append(out, c)
